@@ -11,6 +11,8 @@ package main
 //@ import "github.com/go-jose/go-jose/v4/jwt"
 //@ import "github.com/duo-labs/webauthn/webauthn"
 //@ import "github.com/duo-labs/webauthn/protocol"
+//@ import "github.com/Cloud-Foundations/keymaster/keymasterd/eventnotifier"
+//@ import "encoding/pem"
 //@ use strings nethttp fmt oauth2 neturl time ssh crypto errors x509 keymasterd_jose pwauth cfssl math keymasterd_rate logging sync html
 
 // ---- C17: post-login redirects stay on the keymaster origin ------------------------------------
@@ -515,3 +517,46 @@ package main
 //@ convinv html/template.CSS (s string) :: false       #C18.no-raw-css @C18
 //@ convinv html/template.URL (s string) :: false       #C18.no-raw-url @C18
 //@ convinv html/template.Srcset (s string) :: false    #C18.no-raw-srcset @C18
+
+// ---- C20: every certificate signed is published to the audit stream, no later than the response -----------------
+// The DER (or SSH certificate) signed last in this request and not yet handed to the event notifier.
+//@ ghost var ghostUnpublished bool
+//@ ghost var ghostUnpublishedDER []byte
+//@ ghost var ghostUnpublishedSSH *ssh.Certificate
+// the DER published last (what the response must be built from)
+//@ ghost var ghostPublishedDER []byte
+
+//@ func (*RuntimeState).postAuthX509CertHandler
+//@   atcall certgen.GenUserX509Cert sets ghostUnpublished bool (userName2 string, userPub2 any, caCert2 *x509.Certificate, caPriv2 crypto.Signer, kerberosRealm2 *string, duration2 time.Duration, groups2 []string, organizations2 []string, serviceMethods2 []string, lg2 log.DebugLogger, der []byte, err2 error) :: true if err2 == nil
+//@   atcall certgen.GenUserX509Cert sets ghostUnpublishedDER []byte (userName2 string, userPub2 any, caCert2 *x509.Certificate, caPriv2 crypto.Signer, kerberosRealm2 *string, duration2 time.Duration, groups2 []string, organizations2 []string, serviceMethods2 []string, lg2 log.DebugLogger, der []byte, err2 error) :: der if err2 == nil
+//@   atcall eventnotifier.EventNotifier).PublishX509 sets ghostUnpublished bool (n *eventnotifier.EventNotifier, cert []byte) :: false if same(cert, ghostUnpublishedDER)
+//@   atcall eventnotifier.EventNotifier).PublishX509 sets ghostPublishedDER []byte (n *eventnotifier.EventNotifier, cert []byte) :: cert
+//@   atcall encoding/pem.EncodeToMemory requires (b *pem.Block) :: same(b.Bytes, ghostPublishedDER) && b.Type == "CERTIFICATE"   #C20.x509-response-is-published-der @C20
+//@   atcall net/http.ResponseWriter).WriteHeader requires (w2 http.ResponseWriter, code int) :: code == 200 ==> !ghostUnpublished   #C20.x509-published-before-response @C20
+
+//@ func (*RuntimeState).withParamsGenerateRoleRequestingCert
+//@   atcall certgen.GenIPRestrictedX509Cert sets ghostUnpublished bool (userName2 string, userPub2 any, caCert2 *x509.Certificate, caPriv2 crypto.Signer, nets2 []net.IPNet, duration2 time.Duration, crl2 []string, ocsp2 []string, der []byte, err2 error) :: true if err2 == nil
+//@   atcall certgen.GenIPRestrictedX509Cert sets ghostUnpublishedDER []byte (userName2 string, userPub2 any, caCert2 *x509.Certificate, caPriv2 crypto.Signer, nets2 []net.IPNet, duration2 time.Duration, crl2 []string, ocsp2 []string, der []byte, err2 error) :: der if err2 == nil
+//@   atcall eventnotifier.EventNotifier).PublishX509 sets ghostUnpublished bool (n *eventnotifier.EventNotifier, cert []byte) :: false if same(cert, ghostUnpublishedDER)
+//@   atcall eventnotifier.EventNotifier).PublishX509 sets ghostPublishedDER []byte (n *eventnotifier.EventNotifier, cert []byte) :: cert
+//@   atcall encoding/pem.EncodeToMemory requires (b *pem.Block) :: same(b.Bytes, ghostPublishedDER) && b.Type == "CERTIFICATE"   #C20.role-response-is-published-der @C20
+//@   ensures ret2 == nil ==> old(ghostUnpublished) || !ghostUnpublished                                         #C20.role-published @C20
+
+//@ func (*RuntimeState).generateRoleCert
+// reached only through the CertificateGenerator function value of lib/server/aws_identity_cert, which hands over the
+// key it parsed with crypto/x509 (the shape of parser output is the same assumption as on the other paths)
+//@   requires parsedKeyShape(publicKey)
+//@   atcall crypto/x509.CreateCertificate sets ghostUnpublished bool (rnd2 io.Reader, template2 *x509.Certificate, parent2 *x509.Certificate, pub2 any, priv2 any, der []byte, err2 error) :: true if err2 == nil
+//@   atcall crypto/x509.CreateCertificate sets ghostUnpublishedDER []byte (rnd2 io.Reader, template2 *x509.Certificate, parent2 *x509.Certificate, pub2 any, priv2 any, der []byte, err2 error) :: der if err2 == nil
+//@   atcall eventnotifier.EventNotifier).PublishX509 sets ghostUnpublished bool (n *eventnotifier.EventNotifier, cert []byte) :: false if same(cert, ghostUnpublishedDER)
+//@   ensures ret1 == nil ==> old(ghostUnpublished) || !ghostUnpublished                                         #C20.cloud-role-published @C20
+//@   ensures ret1 == nil ==> same(ret0, ghostUnpublishedDER)                                                   #C20.cloud-role-returns-published-der @C20
+
+//@ func (*RuntimeState).postAuthSSHCertHandler
+//@   atcall certgen.GenSSHCertFileString sets ghostUnpublished bool (username2 string, userPubKey2 string, signer2 ssh.Signer, hostIdentity2 string, duration2 time.Duration, ext2 map[string]string, certString2 string, cert2 ssh.Certificate, err2 error) :: true if err2 == nil
+//@   atcall eventnotifier.EventNotifier).PublishSSH sets ghostUnpublished bool (n *eventnotifier.EventNotifier, cert []byte) :: false
+//@   atcall net/http.ResponseWriter).WriteHeader requires (w2 http.ResponseWriter, code int) :: code == 200 ==> !ghostUnpublished   #C20.ssh-published-before-response @C20
+
+// every place that creates a certificate is one of the functions above (or start-up code making the CA / TLS certificates)
+//@ callers crypto/x509.CreateCertificate only (*RuntimeState).generateRoleCert, generateCertAndWriteToFile, certgen.GenUserX509Cert, certgen.GenIPRestrictedX509Cert, certgen.GenSelfSignedCACert  #C20.all-signing-sites-known @C20
+//@ callers golang.org/x/crypto/ssh.Certificate).SignCert only certgen.GenSSHCertFileString  #C20.all-ssh-signing-sites-known @C20
